@@ -43,6 +43,11 @@ func HTTPDate(s string) (Sec, bool) {
 	if err != nil {
 		return 0, false
 	}
+	// an HTTP-date is in GMT (RFC 9110 §5.6.7); the rfc850 layout of the parser takes any zone
+	// abbreviation and reads one it does not know as if it were GMT
+	if name, off := t.Zone(); off != 0 || (name != "GMT" && name != "UTC") {
+		return 0, false
+	}
 	return t.Unix() - T0.Unix(), true
 }
 
